@@ -965,15 +965,15 @@ macro_rules! fold_forms {
     }};
 }
 
-/// `it <sum|prod> <u|i|q|x> items...` (integers: one token per item, rationals: two)
+/// `it <sum|prod> <u|i> items...`
 fn iter_fold(a: &[&str]) -> Vec<String> {
     let mut out = Vec::new();
     let op = a[0];
     match a[1] {
         "u" => { let items = || -> Vec<UBig> { a[2..].iter().map(|c| ubig(c)).collect() }; fold_forms!(out, op, items, UBig) }
         "i" => { let items = || -> Vec<IBig> { a[2..].iter().map(|c| ibig(c)).collect() }; fold_forms!(out, op, items, IBig) }
-        "q" => { let items = || -> Vec<RBig> { a[2..].chunks(2).map(|c| rbig(c[0], c[1])).collect() }; fold_forms!(out, op, items, RBig) }
-        "x" => { let items = || -> Vec<Relaxed> { a[2..].chunks(2).map(|c| relaxed(c[0], c[1])).collect() }; fold_forms!(out, op, items, Relaxed) }
+        // RBig / Relaxed: rational/src/iter.rs exists but is not a module of the crate (no `mod iter;`),
+        // so Sum / Product are not offered for rationals
         other => out.push(format!("unknown-kind={}", other)),
     }
     out
